@@ -378,9 +378,9 @@ fn read_through<T: Elem, Tr: ?Sized + TrX, MV: MX>(v: &AnyVec<Tr, MV>, r: u8, i:
 
 /// A user-defined value handle: reads go to a shared source, the first write access detaches it into a private copy (the library may
 /// only rely on the trait contract: `as_bytes_ptr` for reading, `as_bytes_mut_ptr` for writing - they need not be the same address).
-pub struct CowValue<T: Elem> { shared: *const T, private: std::mem::MaybeUninit<T>, pub detached: bool }
+pub struct CowValue<T: Elem> { shared: *const T, private: [std::mem::MaybeUninit<T>; 2], cur: usize, pub detached: bool }
 impl<T: Elem> CowValue<T> {
-    pub fn new(source: &ManuallyDrop<T>) -> Self { CowValue { shared: &**source as *const T, private: std::mem::MaybeUninit::uninit(), detached: false } }
+    pub fn new(source: &ManuallyDrop<T>) -> Self { CowValue { shared: &**source as *const T, private: [std::mem::MaybeUninit::uninit(), std::mem::MaybeUninit::uninit()], cur: 0, detached: false } }
 }
 thread_local! {
     /// (calls of the overridden `move_into`, calls that came with a wrong `bytes_size`)
@@ -388,7 +388,7 @@ thread_local! {
 }
 impl<T: Elem> any_vec::any_value::AnyValueSizeless for CowValue<T> {
     type Type = any_vec::any_value::Unknown;
-    fn as_bytes_ptr(&self) -> *const u8 { if self.detached { self.private.as_ptr() as *const u8 } else { self.shared as *const u8 } }
+    fn as_bytes_ptr(&self) -> *const u8 { if self.detached { self.private[self.cur].as_ptr() as *const u8 } else { self.shared as *const u8 } }
     // a user may override the provided `move_into` (LazyClone does): consuming a value has to go through it
     unsafe fn move_into<KnownType: 'static>(self, out: *mut u8, bytes_size: usize) {
         COW_MOVES.with(|c| { let (n, bad) = c.get(); c.set((n + 1, bad + (bytes_size != size_of::<T>()) as u32)); });
@@ -397,8 +397,15 @@ impl<T: Elem> any_vec::any_value::AnyValueSizeless for CowValue<T> {
 }
 impl<T: Elem> any_vec::any_value::AnyValueSizelessMut for CowValue<T> {
     fn as_bytes_mut_ptr(&mut self) -> *mut u8 {
-        if !self.detached { unsafe { std::ptr::copy_nonoverlapping(self.shared, self.private.as_mut_ptr(), 1); } self.detached = true; }
-        self.private.as_mut_ptr() as *mut u8
+        // every exclusive access opens a new version: the value moves to the other private buffer, the old one is poisoned
+        // (nothing in the trait says that two calls give the same address)
+        if !self.detached { unsafe { std::ptr::copy_nonoverlapping(self.shared, self.private[0].as_mut_ptr(), 1); } self.cur = 0; self.detached = true; }
+        else {
+            let (old, new) = (self.cur, 1 - self.cur);
+            unsafe { std::ptr::copy_nonoverlapping(self.private[old].as_ptr(), self.private[new].as_mut_ptr(), 1); std::ptr::write_bytes(self.private[old].as_mut_ptr() as *mut u8, elem::POISON, size_of::<T>()); }
+            self.cur = new;
+        }
+        self.private[self.cur].as_mut_ptr() as *mut u8
     }
 }
 // ... and it is a lazy-clone source: `clone_into` is required, the library has to clone through it
@@ -414,13 +421,36 @@ impl<T: Elem> AnyValue for CowValue<T> { fn value_typeid(&self) -> TypeId { Type
 impl<T: Elem> AnyValueTypelessMut for CowValue<T> {}
 impl<T: Elem> AnyValueMut for CowValue<T> {}
 
-pub const N_USER_OPS: u8 = 6;
+/// A second user-defined value: statically typed (`type Type = T`), but the carrier is BIGGER than the value it carries (a tag and a
+/// reference beside it), and its `move_into` copies exactly the `bytes_size` bytes it is told to ("must be the correct object size").
+#[repr(C)]
+pub struct TagValue<T: Elem> { value: ManuallyDrop<T>, tag: [u64; 3] }
+impl<T: Elem> TagValue<T> { pub fn new(v: T) -> Self { TagValue { value: ManuallyDrop::new(v), tag: [0xA5A5_A5A5_A5A5_A5A5; 3] } } }
+impl<T: Elem> any_vec::any_value::AnyValueSizeless for TagValue<T> {
+    type Type = T;
+    fn as_bytes_ptr(&self) -> *const u8 { &*self.value as *const T as *const u8 }
+    unsafe fn move_into<KnownType: 'static>(self, out: *mut u8, bytes_size: usize) {
+        COW_MOVES.with(|c| { let (n, bad) = c.get(); c.set((n + 1, bad + (bytes_size != size_of::<T>()) as u32)); });
+        std::ptr::copy_nonoverlapping(self.as_bytes_ptr(), out, bytes_size);
+    }
+}
+impl<T: Elem> any_vec::any_value::AnyValueCloneable for TagValue<T> {
+    unsafe fn clone_into(&self, out: *mut u8) {
+        COW_MOVES.with(|c| { let (n, bad) = c.get(); c.set((n + 100, bad)); });
+        std::ptr::write(out as *mut T, (*self.value).clone());
+    }
+}
+impl<T: Elem> AnyValueTypeless for TagValue<T> { fn size(&self) -> usize { size_of::<T>() } }
+impl<T: Elem> AnyValue for TagValue<T> { fn value_typeid(&self) -> TypeId { TypeId::of::<T>() } }
+
+pub const N_USER_OPS: u8 = 11;
 
 impl<T: Elem + SatisfyTraits<Tr>, M: MX, Tr: TrX + ?Sized> World<T, M, Tr> {
     /// C13 / C01: the user-defined handle swapped with element i (both dispatch orders), pushed, inserted at i
     pub fn do_user_value(&mut self, op: u8, i: usize, out: &mut Out) {
         let len = self.ma.len();
-        if T::SIZE == 0 || (op < 2 && i >= len) || (op >= 3 && i > len) || (op >= 2 && !M::RESIZABLE && len >= self.a.capacity()) || (op == 5 && i != 0) { out.outcome.push_str("n/a"); return; }
+        if T::SIZE == 0 || (op < 2 && i >= len) || (op >= 3 && op < 6 && i > len) || (op >= 2 && !M::RESIZABLE && len >= self.a.capacity()) || (op == 5 && i != 0) || (op >= 6 && (i > len || (matches!(op, 6 | 9 | 10) && i != 0))) { out.outcome.push_str("n/a"); return; }
+        if op >= 6 { self.do_tag_value(op, i, out); return; }
         let source = ManuallyDrop::new({ let _w = elem::WindowOff::new(); T::fresh() });
         let sid = source.id();
         let mut cow_slot = Some(CowValue::<T>::new(&source));
@@ -469,9 +499,55 @@ impl<T: Elem + SatisfyTraits<Tr>, M: MX, Tr: TrX + ?Sized> World<T, M, Tr> {
             let _ = guarded(move || { let mut s = source; unsafe { ManuallyDrop::drop(&mut s); } });
             out.leak_ok = true;
         } else {
-            let held = unsafe { cow.private.assume_init_read() };
+            let held = unsafe { cow.private[cow.cur].assume_init_read() };
             if held.id() != old { out.fail(Class::Vec, "wrong-value", format!("after the swap the handle holds id {}, the element's old value was {old}", held.id())); }
             let _ = guarded(move || drop(held));
+        }
+        out.outcome.push_str("ok");
+    }
+}
+
+impl<T: Elem + SatisfyTraits<Tr>, M: MX, Tr: TrX + ?Sized> World<T, M, Tr> {
+    /// the statically typed, oversized user value: pushed (6), inserted at i (7), two of them spliced in at i (8), a lazy clone of it
+    /// downcast (9) or pushed (10)
+    fn do_tag_value(&mut self, op: u8, i: usize, out: &mut Out) {
+        use any_vec::any_value::AnyValueCloneable;
+        let len = self.ma.len();
+        let need = if op == 8 { 2 } else if op == 9 { 0 } else { 1 };
+        if !M::RESIZABLE && len + need > self.a.capacity() { out.outcome.push_str("n/a"); return; }
+        COW_MOVES.with(|c| c.set((0, 0)));
+        let (v1, v2) = { let _w = elem::WindowOff::new(); (T::fresh(), T::fresh()) };
+        let (id1, id2) = (v1.id(), v2.id());
+        let (t1, t2) = (TagValue::new(v1), TagValue::new(v2));
+        let clones0 = elem::with_reg(|r| r.clones + r.zst_clones);
+        let a = &mut self.a;
+        let mut got: Option<u16> = None;
+        let g = &mut got;
+        // what is left to destroy by hand afterwards (values that were not consumed)
+        let r = guarded(move || -> (Option<TagValue<T>>, Option<TagValue<T>>) { match op {
+            6 => { a.push(t1); (None, Some(t2)) }
+            7 => { a.insert(i, t1); (None, Some(t2)) }
+            8 => { let d = a.splice(i..i, [t1, t2]); drop(d); (None, None) }
+            9 => { let v: T = t1.lazy_clone().downcast::<T>().expect("downcast of a lazy clone of a user value"); *g = Some(v.id()); let _w = elem::WindowOff::new(); drop(v); (Some(t1), Some(t2)) }
+            _ => { a.push(t1.lazy_clone()); (Some(t1), Some(t2)) }
+        } });
+        let (n, bad) = COW_MOVES.with(|c| c.get());
+        match r {
+            Err(Caught::Injected) => { out.faulted = true; out.leak_ok = true; return; }
+            Err(Caught::Panic(m)) => { out.fail(Class::Vec, "unexpected-panic", format!("user-defined typed value, operation {op}: {m}")); out.faulted = true; out.leak_ok = true; return; }
+            Ok((l1, l2)) => { let _ = guarded(move || { for l in [l1, l2].into_iter().flatten() { let mut l = l; unsafe { ManuallyDrop::drop(&mut l.value); } } }); }
+        }
+        if bad != 0 { out.fail(Class::Vec, "user-value-move-into", "`move_into` of a statically typed user value was called with a bytes_size that is not the element size".into()); }
+        let clones = elem::with_reg(|r| r.clones + r.zst_clones) - clones0;
+        match op {
+            6 => { self.ma.push(Mv::Id(id1)); if n != 1 { out.fail(Class::Vec, "user-value-move-into", format!("push consumed the user value with {n} move_into calls")); } }
+            7 => { self.ma.insert(i, Mv::Id(id1)); if n != 1 { out.fail(Class::Vec, "user-value-move-into", format!("insert consumed the user value with {n} move_into calls")); } }
+            8 => { self.ma.insert(i, Mv::Id(id2)); self.ma.insert(i, Mv::Id(id1)); if n != 2 { out.fail(Class::Vec, "user-value-move-into", format!("splice consumed two user values with {n} move_into calls")); } }
+            9 => {
+                if n != 100 || clones != 1 { out.fail(Class::Vec, "user-value-clone-into", format!("downcast of a lazy clone of a user value: {} clone_into calls, {clones} Clone calls (want 1 / 1)", n / 100)); }
+                if let Some(id) = got { if T::SIZE != 0 && elem::parent_of(id) != Some(id1) { out.fail(Class::Vec, "lazy-not-a-clone", format!("downcast of a lazy clone of a user value gave id {id}, whose parent is {:?} (source {id1})", elem::parent_of(id))); } }
+            }
+            _ => { self.ma.push(Mv::CloneOf(id1)); if n != 100 || clones != 1 { out.fail(Class::Vec, "user-value-clone-into", format!("push of a lazy clone of a user value: {} clone_into calls, {clones} Clone calls (want 1 / 1)", n / 100)); } }
         }
         out.outcome.push_str("ok");
     }
